@@ -320,8 +320,11 @@ pub fn quiet_panics() {
             .map(|l| format!("{}:{}", l.file(), l.line()))
             .unwrap_or_default();
         LAST_PANIC.with(|p| *p.borrow_mut() = Some(format!("{msg} @ {loc}")));
-        if std::env::var("VH_SHOW_PANICS").is_ok() {
-            eprintln!("panic: {msg} @ {loc}");
+        // keep a bounded record on stderr: if the process aborts (panic while unwinding, panic in
+        // a thread nobody joins) this is all the driver has to name the site
+        static SHOWN: AtomicU64 = AtomicU64::new(0);
+        if SHOWN.fetch_add(1, Ordering::Relaxed) < 40 || std::env::var("VH_SHOW_PANICS").is_ok() {
+            eprintln!("panicked at {loc}: {}", msg.lines().next().unwrap_or(""));
         }
     }));
 }
